@@ -228,6 +228,7 @@ def run_world(seed, build, trace=None, max_steps=100000, yield_prob=1.0,
 
     returns RunResult(status=ok|violation|inconclusive|harness_error, ...)
     '''
+    seams.reset_globals()
     sim = K.new_sim(seed, trace=trace, yield_prob=yield_prob)
     cfg = cfg if cfg is not None else dict()
     root = None
